@@ -591,3 +591,56 @@ func (v *Verifier) verifyWithCandidates(fn *ssa.Function, fc *FuncContract) *Fun
 		}
 	}
 }
+
+// verifyLemmas checks the `lemma` declarations of the contract files of the given packages:
+// closed formulas over spec functions, proved once (no program state involved).
+func (v *Verifier) verifyLemmas(pkgs map[string]bool) *FuncResult {
+	var lem []*Axiom
+	for _, l := range v.CS.Lemmas {
+		if pkgs[l.Pkg] {
+			lem = append(lem, l)
+		}
+	}
+	if len(lem) == 0 {
+		return nil
+	}
+	res := &FuncResult{Key: "lemmas"}
+	c := newCtx(v)
+	res.ctx = c
+	defer func() {
+		if r := recover(); r != nil {
+			res.Err = fmt.Sprintf("%v", r)
+		}
+	}()
+	st := &State{heaps: map[string]Term{}, ghosts: map[string]Term{}}
+	c.declare("alloc@0", SInt)
+	st.alloc = Term{"alloc@0", SInt}
+	for _, ax := range v.CS.Axioms {
+		var apkg *types.Package
+		if p := v.P.ByPath[ax.Pkg]; p != nil {
+			apkg = p.Types
+		} else if ax.Pkg != "std" && ax.Pkg != "" {
+			continue
+		}
+		ae := &Env{c: c, pkg: apkg, vars: map[string]Binding{}, st: st}
+		if t, err := ae.evalBool(ax.E); err == nil {
+			c.assume(t)
+		}
+	}
+	for _, l := range lem {
+		var lpkg *types.Package
+		if p := v.P.ByPath[l.Pkg]; p != nil {
+			lpkg = p.Types
+		}
+		le := &Env{c: c, pkg: lpkg, vars: map[string]Binding{}, st: st}
+		t, err := le.evalBool(l.E)
+		if err != nil {
+			panic(evalError{fmt.Sprintf("lemma %s (%s): %v", l.Name, l.Src, err)})
+		}
+		name := fmt.Sprintf("%s/lemma:%s", shortKey(l.Pkg), l.Name)
+		o := &Obligation{Name: name, Kind: "lemma", Label: l.Name, nfacts: len(c.facts), Reach: tTrue, Cond: t, Desc: "lemma: " + exprString(l.E), Func: "lemmas"}
+		c.obls = append(c.obls, o)
+	}
+	res.Obls = c.obls
+	return res
+}
